@@ -41,6 +41,12 @@ pub struct Scn {
     /// second round must not exceed the first by more than one batch (C17:
     /// the reclamation manager still works after whatever the threads did)
     pub growth_probe: bool,
+    /// a hang in which only futures tasks are parked is judged by a probe: a
+    /// try_send on this (spare) sender handle from the main thread. Accepted =
+    /// the queue had room and the parked sink was not told; refused = the
+    /// queue really is full (e.g. an idle stream holds the values) and the
+    /// parked sender is not a violation
+    pub hang_probe: Option<u8>,
 }
 
 impl Scn {
@@ -59,6 +65,7 @@ impl Scn {
             extra_yield: 0,
             spurious: std::env::var("MQV_NO_SPURIOUS").is_err(),
             growth_probe: false,
+            hang_probe: None,
         }
     }
 }
@@ -107,6 +114,7 @@ fn sender_slots(ctx: &Ctx) -> Vec<u8> {
 }
 
 pub const PROBE_BASE: u32 = 9000;
+pub const HANG_PROBE_VAL: u32 = 9998;
 
 fn post_phase(ctx: &Ctx, scn: &Scn, n_accepted_hint: usize) {
     let n = scn.cfg.n() as usize;
@@ -215,6 +223,12 @@ pub fn run_one(scn: &Scn, opts: &ExecOpts) -> Outcome {
         rt::run_threads(bodies, opts)
     };
     let t_join = rt::now();
+    if let (Status::Hang(list), Some(slot)) = (&rec.status, scn.hang_probe) {
+        if !rec.runaway && list.iter().all(|(_, b)| matches!(b, rt::Block::Park)) && ctx.slot_live(slot) {
+            let c = ctx.clone();
+            let _ = rt::seq_call(move || c.exec(MAIN, &opv(OpK::TrySend, slot, HANG_PROBE_VAL)));
+        }
+    }
     if rec.runaway {
         // threads of this execution are still running inside the crate: keep
         // everything alive (no destructor, no release of the quarantine); the
